@@ -496,8 +496,12 @@ Extra:\n{self.extra_map}
             raise ValueError(
                 "cannot combine PSBTs that refer to different transactions"
             )
-        # combine the hd_pubs
-        self.hd_pubs = {**other.hd_pubs, **self.hd_pubs}
+        # combine the hd_pubs, keyed by the xpub itself whatever keys the
+        # two dictionaries used, so the same xpub is never listed twice
+        hd_pubs = {}
+        for hd_pub in [*other.hd_pubs.values(), *self.hd_pubs.values()]:
+            hd_pubs[hd_pub.raw_serialize()] = hd_pub
+        self.hd_pubs = hd_pubs
         # combine extra_map
         self.extra_map = {**other.extra_map, **self.extra_map}
         # combine psbt_ins
